@@ -171,6 +171,9 @@ func (self *StreamDecoder) readMore() bool {
 
 func (self *StreamDecoder) setErr(err error) {
 	self.err = err
+	// NOTICE: the buffer is dropped, so the scan position must not point into it any more
+	self.scanned += int64(self.scanp)
+	self.scanp = 0
 	mem := self.buf[:0]
 	self.buf = nil
 	freeBytes(mem)
